@@ -888,12 +888,21 @@ enum SbCall {
     Fill,
     Consume(usize),
     Read(usize),
+    PeekData,
+    ReadData,
+    ReadString,
 }
 
 fn parse_sb_calls(s: &str) -> Option<Vec<SbCall>> {
     s.split(',')
         .map(|x| {
-            if x == "f" {
+            if x == "p" {
+                Some(SbCall::PeekData)
+            } else if x == "l" {
+                Some(SbCall::ReadData)
+            } else if x == "s" {
+                Some(SbCall::ReadString)
+            } else if x == "f" {
                 Some(SbCall::Fill)
             } else if let Some(n) = x.strip_prefix('c') {
                 Some(SbCall::Consume(n.parse().ok()?))
@@ -926,6 +935,29 @@ fn drive_calls<T: Read, F: FnMut(bool, &[u8]) -> ProgressAction>(
             SbCall::Consume(n) => {
                 reader.consume(n);
                 "c".to_string()
+            }
+            SbCall::PeekData => match reader.peek_data_line() {
+                None => "[none]".to_string(),
+                Some(Err(e)) => format!("[{}]", io_obs(&e)),
+                Some(Ok(Err(e))) => format!("[err:{}]", derr_obs(&e)),
+                Some(Ok(Ok(d))) => format!("[l:d:{}]", bobs(d)),
+            },
+            SbCall::ReadData => format!("[{}]", res_obs(&reader.read_data_line())),
+            SbCall::ReadString => {
+                let mut st = String::new();
+                let res = reader.read_line_to_string(&mut st);
+                note_call_result(res.is_ok());
+                match res {
+                    Ok(n) if n == st.len() => format!("b:{}", bobs(st.as_bytes())),
+                    Ok(n) => format!("b:{}:returned-{n}", bobs(st.as_bytes())),
+                    Err(e) => {
+                        if e.get_ref().map_or(false, |i| i.is::<std::str::Utf8Error>()) {
+                            "err:utf8".to_string()
+                        } else {
+                            format!("err:{}", io_obs(&e))
+                        }
+                    }
+                }
             }
             SbCall::Read(n) => {
                 let mut buf = vec![0u8; n];
@@ -977,11 +1009,27 @@ fn op_sbc(rep: &mut Report, op: &str, a: &[&str]) -> Option<()> {
         .map(|(e, t)| format!("{}:{}", if *e { "e" } else { "p" }, bobs(t)))
         .collect();
     rep.case(op, &format!("{} prog=[{}]", obs.join("|"), prog.join(",")), true);
-    let legal = calls.iter().all(|c| !matches!(c, SbCall::Consume(n) if *n as u64 > u64::MAX - 65536));
+    // caller contracts: consume() amounts, and the line-wise calls assert that nothing is buffered
+    // (`cap == 0`): that fails after fill_buf/read, and after a read_line_to_string that hit invalid UTF-8
+    let mut legal = calls.iter().all(|c| !matches!(c, SbCall::Consume(n) if *n as u64 > u64::MAX - 65536));
+    if r.is_err() {
+        let at = obs.len() - 1; // the call that panicked
+        let mut buffered = false;
+        for (i, c) in calls.iter().enumerate().take(at) {
+            match c {
+                SbCall::Fill | SbCall::Read(_) => buffered = true,
+                SbCall::ReadString => buffered = obs.get(i).map_or(false, |o| o.starts_with("err:")),
+                _ => {}
+            }
+        }
+        if buffered && matches!(calls.get(at), Some(SbCall::ReadData | SbCall::ReadString)) {
+            legal = false;
+        }
+    }
     rep.bucket(&format!(
         "sbc:{}:{}:{}",
         if handler { if intr.is_some() { "interrupting" } else { "bands" } } else { "plain" },
-        if legal { "legal" } else { "illegal-consume" },
+        if legal { "legal" } else { "contract-violated" },
         if r.is_err() { "panic" } else { "ok" }
     ));
     rep.oracle_checked();
@@ -1001,7 +1049,7 @@ fn op_sbc(rep: &mut Report, op: &str, a: &[&str]) -> Option<()> {
                 op,
             );
         } else {
-            rep.outside_domain("consume() with an amount near usize::MAX overflows pos + amt (caller contract violated)");
+            rep.outside_domain("caller contract violated: consume() near usize::MAX overflows pos + amt, or read_data_line/read_line_to_string called while a line is buffered (assert cap == 0)");
         }
     }
     Some(())
@@ -1286,12 +1334,16 @@ fn gen_sb(r: &mut Rng) -> String {
     if r.chance(1, 4) {
         // explicit fill_buf / consume / read sequences
         let n = 1 + r.usize(10);
+        let linewise = r.chance(1, 2);
         let calls: Vec<String> = (0..n)
-            .map(|_| match r.below(6) {
+            .map(|_| match r.below(if linewise { 7 } else { 6 }) {
+                0 | 1 | 2 | 3 if linewise => (*r.pick(&["p", "l", "s"])).to_string(),
                 0 | 1 => "f".to_string(),
                 2 => format!("c{}", *r.pick(&[0usize, 1, 2, 3, 5, 100, 70000, 1 << 40])),
                 3 => format!("c{}", r.usize(12)),
                 4 => format!("r{}", *r.pick(&[0usize, 1, 2, 7, 65536])),
+                5 if linewise => (*r.pick(&["p", "l", "s", "p", "l", "s", "f"])).to_string(),
+                _ if linewise => (*r.pick(&["p", "l", "s"])).to_string(),
                 _ => format!("r{}", 1 + r.usize(50)),
             })
             .collect();
@@ -1448,6 +1500,13 @@ fn corpus(rep: &mut Report, thorough: bool) {
         "sbc i0 F 4 r9,r9,r9 2.6f6e65+1.61+2.74776f+1.62+F",
         "sbc i1 F 4 r9,r9,r9,r9 2.6f6e65+1.61+3.74776f+1.62+F",
         "sbc i5 F 4 r9,r9,r9,r9 2.6f6e65+1.61+3.74776f+1.62+F",
+        "sbc 0 F 3 p,p,l,p,s,l,l d.6162+t.6364+d.65+F+d.66",    // peek_data_line / read_data_line / read_line_to_string
+        "sbc 1 F 3 p,l,s,s,p,l 1.6162+1.630a+2.7072+1.64+F",
+        "sbc 0 - 3 p,l,p,l D+d.61+F",
+        "sbc 0 F 3 s,s,s t.c3a9+d.c3+t.61+F",                   // valid UTF-8, invalid UTF-8 (then the assert fires)
+        "sbc 0 F 3 f,l d.6162+F",                               // read_data_line with a buffered line: assert
+        "sbc 0 F 3 r1,s d.6162+F",
+        "sbc 0 F 3 s,p,s,l e.6f6f7073+d.61+F",
         "sb i0 F 4 9 3030303502+1.61+F",
         "sb i1 F 1 1 2.61+2.62+2.63+1.64+F",
     ] {
